@@ -140,9 +140,34 @@ def run_ref(case) -> CaseResult:
         if CIPHERS[enc][2] != CIPHERS[enc_sc][2]:
             labels.add('directions-differ:blocksize')
 
+    ref_lists = {'enc_cs': [enc], 'enc_sc': [enc_sc], 'mac_cs': [mac],
+                 'mac_sc': [mac_sc], 'comp_cs': [comp], 'comp_sc': [comp_sc]}
+
+    if case.get('alt'):
+        # both ends know a second cipher / MAC and prefer them in opposite
+        # orders: the client's order decides (RFC 4253 7.1), separately for
+        # each direction, and the packets have to be made accordingly
+        alt_enc, alt_mac = (x.encode() for x in case['alt'])
+        # (which algorithm ends up in use now depends on the role: the
+        # per-algorithm classes are not claimed for these cases)
+        labels = {lb for lb in labels
+                  if not lb.startswith(('enc:', 'mac:', 'directions-'))}
+        labels.add('preference-orders-differ')
+
+        for key, alt, opt in (('enc_cs', alt_enc, 'encryption_algs'),
+                              ('enc_sc', alt_enc, 'encryption_algs'),
+                              ('mac_cs', alt_mac, 'mac_algs'),
+                              ('mac_sc', alt_mac, 'mac_algs')):
+            if alt not in ref_lists[key]:
+                ref_lists[key] = ref_lists[key] + [alt]
+
+            if alt.decode() in opts[opt]:
+                opts[opt].remove(alt.decode())
+
+            opts[opt] = [alt.decode()] + opts[opt]
+
     ref = RefPeer('client' if role == 'server' else 'server', kex=[kex],
-                  enc_cs=[enc], enc_sc=[enc_sc], mac_cs=[mac],
-                  mac_sc=[mac_sc], comp_cs=[comp], comp_sc=[comp_sc],
+                  **ref_lists,
                   strict=case['strict'],
                   host_key=ref_hostkey(case['hostkey'])
                   if role == 'client' else None)
@@ -357,6 +382,9 @@ def ref_strategy(tier: str):
         'comp_sc': st.one_of(st.none(), st.none(),
                              pick(['none', 'zlib@openssh.com', 'zlib'])),
         'strict': st.booleans(),
+        'alt': st.one_of(st.none(), st.none(), st.tuples(
+            pick(sorted(c.decode() for c in CIPHERS)),
+            pick(sorted(m.decode() for m in MACS))).map(list)),
         'rekey': pick([None, None, 'peer', 'asyncssh']),
         'hostkey': pick(['ed25519', 'ecdsa', 'rsa']),
         'writes': st.lists(size, min_size=1, max_size=6),
@@ -595,7 +623,8 @@ FAMILIES = [
                              'rekeyed:asyncssh', 'rekeyed-strict',
                              'directions-differ',
                              'directions-differ:length-field',
-                             'directions-differ:blocksize'] +
+                             'directions-differ:blocksize',
+                             'preference-orders-differ'] +
                      ['enc:' + c.decode() for c in CIPHERS]},
            case_timeout=120),
     Family('pair', run_pair, strategy=pair_strategy,
